@@ -8,10 +8,21 @@ Extracted from /repo's CURRENT sources (shape asserted, exit 1 with a message ot
   * src/haystack/timezone/iana.rs `find_timezone`: exact `name.parse()` first, then the region prefix vector,
     tried in order as `format!("{prefix}/{name}").parse()`;  `timezone_short_name` (text after the first '/');
     `is_utc` (`== UTC`);  `make_date_time` / `make_date_time_with_tz` (instant kept: `with_timezone`);
+    `make_date_time_from_text` (the whole body: conversion, the zone offset rounded to the minute
+    `signum * ((abs + 30) / 60) * 60`, the comparison with the written offset, the subtraction of the
+    seconds and the re-check of the zone offset at the new instant);
   * src/haystack/timezone/mod.rs `fixed_timezone`: the slicing constants and literals of the offset-text ->
     `Etc/GMT-+N` mapping;
   * src/haystack/encoding/zinc/decode/scalar/date_time.rs `parse_time_zone_name`: first-byte range and the extra
-    characters of the zone-name lexing class, the minimum length; `parse_time_zone`: the `"UTC"` literal.
+    characters of the zone-name lexing class, the minimum length; `parse_time_zone`: the `"UTC"` literal;
+    `parse_datetime`: the `UTC` shortcut, `make_date_time_with_tz` for `Z Name`, `make_date_time_from_text`
+    for a text with an offset;
+  * the other call sites of the two constructors: src/haystack/encoding/json/decode.rs `parse_datetime`
+    (whole body: `val` must pass `DateTime::parse_from_rfc3339`, is parsed again by chrono and goes through
+    `make_date_time_from_text` when there is a `tz`), src/haystack/val/datetime.rs `parse_from_rfc3339` /
+    `parse_from_rfc3339_with_timezone`, src/c_api/value.rs `haystack_value_make_tz_datetime`
+    (`make_date_time_with_tz`), and the two writers (`to_rfc3339_opts(SecondsFormat::AutoSi, true)`, the
+    city name unless `is_utc`).
 and from the COMPILED chrono-tz:
   * the zone id list: `<verif>/.cache/cargo-target/release/hsverif dump zones` (one IANA id per line); when the
     harness has not been built yet, the `name()` table of the generated `timezones.rs` in the cargo build
@@ -52,6 +63,24 @@ def fn_text(src, name):
             depth -= 1
             if depth == 0:
                 return src[m.start():j + 1]
+        j += 1
+
+
+def block_text(src, header):
+    """source text of the item that starts with `header` up to its matching closing brace"""
+    k = src.find(header)
+    if k < 0:
+        die(f"`{header}` not found")
+    depth, j = 0, src.index("{", k)
+    while True:
+        if j >= len(src):
+            die(f"`{header}`: unbalanced braces")
+        if src[j] == "{":
+            depth += 1
+        elif src[j] == "}":
+            depth -= 1
+            if depth == 0:
+                return src[k:j + 1]
         j += 1
 
 
@@ -127,6 +156,11 @@ def main():
     iana = strip_comments(open(os.path.join(repo, "src/haystack/timezone/iana.rs"), encoding="utf-8", newline="").read())
     modrs = strip_comments(open(os.path.join(repo, "src/haystack/timezone/mod.rs"), encoding="utf-8", newline="").read())
     zdt = strip_comments(open(os.path.join(repo, "src/haystack/encoding/zinc/decode/scalar/date_time.rs"), encoding="utf-8", newline="").read())
+    jdec = strip_comments(open(os.path.join(repo, "src/haystack/encoding/json/decode.rs"), encoding="utf-8", newline="").read())
+    jenc = strip_comments(open(os.path.join(repo, "src/haystack/encoding/json/encode.rs"), encoding="utf-8", newline="").read())
+    zenc = strip_comments(open(os.path.join(repo, "src/haystack/encoding/zinc/encode.rs"), encoding="utf-8", newline="").read())
+    vdt = strip_comments(open(os.path.join(repo, "src/haystack/val/datetime.rs"), encoding="utf-8", newline="").read())
+    capi = strip_comments(open(os.path.join(repo, "src/c_api/value.rs"), encoding="utf-8", newline="").read())
 
     # ---- find_timezone -------------------------------------------------------------------------------
     ft = fn_text(iana, "find_timezone")
@@ -166,6 +200,20 @@ def main():
         if let Ok(tz) = find_timezone(tz) { Ok(datetime.with_timezone(&tz)) }
         else { Err(format!("Can't create datetime with timezone {tz}")) } }"""):
         die(f"make_date_time_with_tz does not have the modelled shape: `{mt}`")
+    mf = norm(fn_text(iana, "make_date_time_from_text"))
+    if mf != norm("""fn make_date_time_from_text( datetime: &StdDateTime<FixedOffset>, tz: &str, ) -> Result<DateTimeType, String> {
+        use chrono::Offset;
+        let converted = make_date_time_with_tz(datetime, tz)?;
+        let zone_secs = converted.offset().fix().local_minus_utc();
+        let rounded = zone_secs.signum() * ((zone_secs.abs() + 30) / 60) * 60;
+        let seconds = zone_secs - rounded;
+        if seconds != 0 && rounded == datetime.offset().local_minus_utc() {
+            let exact = converted - chrono::Duration::seconds(seconds.into());
+            if exact.offset().fix().local_minus_utc() == zone_secs { return Ok(exact); }
+        }
+        Ok(converted) }"""):
+        die("make_date_time_from_text does not have the modelled shape (convert; rounded = signum * ((abs + 30) / 60) * 60; "
+            f"seconds != 0 && rounded == written offset; converted - seconds; offset re-checked): `{mf}`")
 
     # ---- fixed_timezone ------------------------------------------------------------------------------
     fz = norm(fn_text(modrs, "fixed_timezone"))
@@ -194,14 +242,65 @@ def main():
     ptz = norm(fn_text(zdt, "parse_datetime"))
     if 'if tz == "UTC" { Ok(utc.into()) }' not in ptz:
         die("parse_datetime: the `tz == \"UTC\"` shortcut is not there")
-    if "make_date_time_with_tz(&utc.with_timezone(&Utc.fix()), &tz)" not in ptz or ".and_then(|fixed| make_date_time_with_tz(&fixed, &tz))" not in ptz:
-        die("parse_datetime: the two `make_date_time_with_tz` paths are not as modelled")
+    ptz_tail = ptz[ptz.find("let (tz, fixed_offset)"):] if "let (tz, fixed_offset)" in ptz else ""
+    if ptz_tail != norm("""let (tz, fixed_offset) = parse_time_zone(scanner)?;
+        let datetime = date.and_time(*time.deref());
+        let utc = Utc.from_utc_datetime(&datetime);
+        if tz == "UTC" { Ok(utc.into()) } else {
+            fixed_offset .map_or_else(
+                || make_date_time_with_tz(&utc.with_timezone(&Utc.fix()), &tz),
+                |offset| { offset .with_ymd_and_hms( date.year(), date.month(), date.day(), time.hour(), time.minute(), time.second(), )
+                    .single() .and_then(|dt| dt.with_nanosecond(time.nanosecond())) .ok_or_else(|| String::from("Invalid date time."))
+                    .and_then(|fixed| make_date_time_from_text(&fixed, &tz)) }, )
+            .map(DateTime::from) .or_else(|err| scanner.make_generic_err(&err)) } }"""):
+        die("parse_datetime: the paths after `parse_time_zone` are not as modelled (`Z Name`: make_date_time_with_tz on the "
+            f"fields as UTC; `+hh:mm Name`: make_date_time_from_text on the fields at that offset): `{ptz_tail}`")
     ptzz = norm(fn_text(zdt, "parse_time_zone"))
     for frag in ["Duration::hours(gmt_offset[1..3].parse::<i64>().unwrap_or(0))", "Duration::minutes(gmt_offset[4..6].parse::<i64>().unwrap_or(0))",
                  'if gmt_sign == "+" { FixedOffset::east_opt(dur.num_seconds() as i32) } else { FixedOffset::west_opt(dur.num_seconds() as i32) }',
                  'Ok(("UTC".into(), None))']:
         if frag not in ptzz:
             die(f"parse_time_zone: `{frag}` not found")
+
+    # ---- the other call sites ------------------------------------------------------------------------
+    jp = norm(fn_text(jdec, "parse_datetime"))
+    if jp != norm("""fn parse_datetime(dict: &Dict) -> Result<HVal, JsonErr> { match dict.get_str("val") {
+        Some(val) => match DateTime::parse_from_rfc3339(&val.value) {
+            Ok(date) => match dict.get_str("tz") {
+                Some(tz) => {
+                    let datetime = chrono::DateTime::parse_from_rfc3339(&val.value) .map_err(|err| err.to_string())
+                        .and_then(|written| make_date_time_from_text(&written, &tz.value));
+                    match datetime { Ok(datetime) => Ok(HVal::DateTime(datetime.into())), Err(err) => Err(JsonErr::custom(err)), } }
+                None => Ok(HVal::make_datetime(date)), },
+            Err(err) => Err(JsonErr::custom(format!("Invalid datetime 'val', {err}"))), },
+        None => Err(JsonErr::custom("Missing or invalid 'val'")), } }"""):
+        die(f"json parse_datetime does not have the modelled shape (parse_from_rfc3339(val), then make_date_time_from_text of the re-parsed val when there is a tz): `{jp}`")
+    vp = norm(fn_text(vdt, "parse_from_rfc3339"))
+    if vp != norm("""fn parse_from_rfc3339(arg: &str) -> Result<DateTime, String> { match DateTimeImpl::<FixedOffset>::parse_from_rfc3339(arg) {
+        Ok(value) => Ok(DateTime { value: make_date_time(value)?, }), Err(err) => Err(format!("Can't parse date time {err}")), } }"""):
+        die(f"DateTime::parse_from_rfc3339 does not have the modelled shape: `{vp}`")
+    vw = norm(fn_text(vdt, "parse_from_rfc3339_with_timezone"))
+    if vw != norm("""fn parse_from_rfc3339_with_timezone(datetime: &str, tz: &str) -> Result<DateTime, String> {
+        match DateTimeImpl::<FixedOffset>::parse_from_rfc3339(datetime) {
+        Ok(value) => Ok(DateTime { value: make_date_time_from_text(&value, tz)?, }), Err(err) => Err(format!("Can't parse date time {err}")), } }"""):
+        die(f"DateTime::parse_from_rfc3339_with_timezone does not have the modelled shape (make_date_time_from_text): `{vw}`")
+    cm = norm(fn_text(capi, "haystack_value_make_tz_datetime"))
+    if "match make_date_time_with_tz(&datetime.with_timezone(&Utc.fix()), tz) {" not in cm or "make_date_time_from_text" in cm:
+        die("haystack_value_make_tz_datetime: `make_date_time_with_tz(&datetime.with_timezone(&Utc.fix()), tz)` is not there")
+    ze = norm(block_text(zenc, "impl ToZinc for DateTime {"))
+    if ze != norm("""impl ToZinc for DateTime { fn to_zinc<W: std::io::Write>(&self, writer: &mut W) -> Result<()> {
+        if self.is_utc() { write_str(writer, &self.to_rfc3339_opts(SecondsFormat::AutoSi, true))?; }
+        else { writer.write_fmt(format_args!( "{} {}", &self.to_rfc3339_opts(SecondsFormat::AutoSi, true), &self.timezone_short_name() ))? }
+        Ok(()) } }"""):
+        die(f"impl ToZinc for DateTime does not have the modelled shape: `{ze}`")
+    je = norm(block_text(jenc, "impl Serialize for DateTime {"))
+    if je != norm("""impl Serialize for DateTime { fn serialize<S: Serializer>(&self, serializer: S) -> Result<S::Ok, S::Error> {
+        let mut map = serializer.serialize_map(Some(2))?;
+        map.serialize_entry("_kind", "dateTime")?;
+        map.serialize_entry("val", &self.to_rfc3339_opts(SecondsFormat::AutoSi, true))?;
+        if !self.is_utc() { map.serialize_entry("tz", &self.timezone_short_name())?; }
+        map.end() } }"""):
+        die(f"impl Serialize for DateTime does not have the modelled shape: `{je}`")
 
     # ---- zones ---------------------------------------------------------------------------------------
     ids, source = zone_ids()
